@@ -1,7 +1,6 @@
 package c02
 
 import (
-	"encoding/json"
 	"flag"
 	"fmt"
 	"os"
@@ -10,9 +9,6 @@ import (
 	"strings"
 	"testing"
 
-	"github.com/vektah/gqlparser/v2"
-	gast "github.com/vektah/gqlparser/v2/ast"
-	"github.com/vektah/gqlparser/v2/formatter"
 	"pgregory.net/rapid"
 	"verif/harness/pbt"
 
@@ -60,7 +56,12 @@ func keysOf(m map[string]struct{}) []string {
 	return out
 }
 
+// TestScratch (development aid): S_OP=<operation> [S_FAM=<k> | S_SDL=<sdl>] [S_DATA=<j>] [S_PRE=1]
+// prints the normalized operation, the plan tree, both drivers' output and the upstream query.
 func TestScratch(t *testing.T) {
+	if os.Getenv("S_OP") == "" {
+		t.Skip("development aid: set S_OP")
+	}
 	sdl := os.Getenv("S_SDL")
 	if sdl == "" {
 		sdl = getFamily(0).SDL
@@ -95,7 +96,7 @@ func TestScratch(t *testing.T) {
 	}
 	dumpNode(pl.resp.Data, "")
 	if d := os.Getenv("S_DATA"); d != "" {
-		r := renderResolvable(pl.resp, []byte(d))
+		r := renderResolvable(pl.resp, []byte(d), resolve.ResolvableOptions{})
 		fmt.Printf("OUT %s panic=%q err=%q\n", r.out, r.panicked, r.err)
 		e := w.renderEngine(op, []byte(d))
 		fmt.Printf("ENG %s panic=%q err=%q req=%d\n", e.out, e.panicked, e.err, e.requests)
@@ -103,9 +104,11 @@ func TestScratch(t *testing.T) {
 	}
 }
 
-
 // TestSurvey: classes of failing verdicts over many generated cases (development aid).
 func TestSurvey(t *testing.T) {
+	if os.Getenv("S_N") == "" {
+		t.Skip("development aid: set S_N")
+	}
 	n := 20000
 	if v := os.Getenv("S_N"); v != "" {
 		fmt.Sscan(v, &n)
@@ -126,7 +129,14 @@ func TestSurvey(t *testing.T) {
 	rapid.Check(t, func(rt *rapid.T) {
 		c := gen(rt)
 		count++
-		v := checkCase(c, &pbt.Rec{}, os.Getenv("S_ENGINE") != "")
+		md := modeResolvable
+		if os.Getenv("S_ENGINE") != "" {
+			md = modeEngine
+		}
+		if os.Getenv("S_VC") != "" {
+			md = modeValueCompletion
+		}
+		v := checkCase(c, &pbt.Rec{}, md)
 		if v.Msg == "" {
 			return
 		}
@@ -164,142 +174,4 @@ func sigOf(s string) string {
 		s = s[:200]
 	}
 	return s
-}
-
-// ---- greedy operation minimiser (development aid) ----
-
-func formatDoc(doc *gast.QueryDocument) string {
-	var b strings.Builder
-	formatter.NewFormatter(&b, formatter.WithIndent(" ")).FormatQueryDocument(doc)
-	return strings.Join(strings.Fields(b.String()), " ")
-}
-
-func pruneUnusedFragments(doc *gast.QueryDocument) {
-	for {
-		used := map[string]bool{}
-		var walk func(set gast.SelectionSet)
-		walk = func(set gast.SelectionSet) {
-			for _, sel := range set {
-				switch x := sel.(type) {
-				case *gast.Field:
-					walk(x.SelectionSet)
-				case *gast.InlineFragment:
-					walk(x.SelectionSet)
-				case *gast.FragmentSpread:
-					used[x.Name] = true
-				}
-			}
-		}
-		for _, o := range doc.Operations {
-			walk(o.SelectionSet)
-		}
-		for _, f := range doc.Fragments {
-			walk(f.SelectionSet)
-		}
-		var keep gast.FragmentDefinitionList
-		for _, f := range doc.Fragments {
-			if used[f.Name] {
-				keep = append(keep, f)
-			}
-		}
-		if len(keep) == len(doc.Fragments) {
-			return
-		}
-		doc.Fragments = keep
-	}
-}
-
-// allSets returns pointers to every selection set in the document.
-func allSets(doc *gast.QueryDocument) []*gast.SelectionSet {
-	var out []*gast.SelectionSet
-	var walk func(set *gast.SelectionSet)
-	walk = func(set *gast.SelectionSet) {
-		out = append(out, set)
-		for _, sel := range *set {
-			switch x := sel.(type) {
-			case *gast.Field:
-				if len(x.SelectionSet) > 0 {
-					walk(&x.SelectionSet)
-				}
-			case *gast.InlineFragment:
-				walk(&x.SelectionSet)
-			}
-		}
-	}
-	for _, o := range doc.Operations {
-		walk(&o.SelectionSet)
-	}
-	for _, f := range doc.Fragments {
-		walk(&f.SelectionSet)
-	}
-	return out
-}
-
-func minimiseOp(c Case, engine bool, sameAs func(v pbt.Verdict) bool) Case {
-	w, _ := getWorld(c.SDL)
-	for changed := true; changed; {
-		changed = false
-		doc, errs := gqlparser.LoadQuery(w.gs, c.Op)
-		if errs != nil {
-			return c
-		}
-		nsets := len(allSets(doc))
-	outer:
-		for si := 0; si < nsets; si++ {
-			for idx := 0; ; idx++ {
-				doc, _ := gqlparser.LoadQuery(w.gs, c.Op)
-				sets := allSets(doc)
-				if si >= len(sets) || idx >= len(*sets[si]) {
-					break
-				}
-				if len(*sets[si]) < 2 {
-					// try to inline a lone inline fragment / drop nothing
-					break
-				}
-				ns := append(gast.SelectionSet{}, (*sets[si])[:idx]...)
-				ns = append(ns, (*sets[si])[idx+1:]...)
-				*sets[si] = ns
-				pruneUnusedFragments(doc)
-				cand := c
-				cand.Op = formatDoc(doc)
-				if _, errs := gqlparser.LoadQuery(w.gs, cand.Op); errs != nil {
-					continue
-				}
-				if sameAs(checkCase(cand, &pbt.Rec{}, engine)) {
-					c = cand
-					changed = true
-					continue outer
-				}
-			}
-		}
-	}
-	return c
-}
-
-func TestMinimise(t *testing.T) {
-	rf, err := pbt.LoadReplay(os.Getenv("S_REPLAY"))
-	if err != nil {
-		t.Fatal(err)
-	}
-	var c Case
-	if err := json.Unmarshal(rf.Case, &c); err != nil {
-		t.Fatal(err)
-	}
-	engine := rf.Part == "engine"
-	v0 := checkCase(c, &pbt.Rec{}, engine)
-	if v0.Msg == "" {
-		t.Fatal("replay passes")
-	}
-	kind := func(v pbt.Verdict) string {
-		if v.Msg == "" {
-			return ""
-		}
-		l := strings.SplitN(v.Msg, "\n", 2)[0]
-		return v.Finding + "|" + sigOf(l)
-	}
-	k0 := kind(v0)
-	m := minimiseOp(c, engine, func(v pbt.Verdict) bool { return kind(v) == k0 })
-	// prune data: drop keys greedily
-	fmt.Printf("MIN fam=%d\n op=%s\n data=%s\n", m.Fam, m.Op, m.Data)
-	fmt.Println(checkCase(m, &pbt.Rec{}, engine).Msg)
 }
